@@ -56,6 +56,7 @@ func FuzzC13Tree(f *testing.F) {
 		f.Add(s, uint16(i*37))
 		f.Add(s, uint16(1|3<<1|uint16(i+1)<<4|7<<8))
 		f.Add(s, uint16(1|2<<1|uint16(i)<<4|uint16(i%4)<<8|3<<13))
+		f.Add(s, uint16(1|1<<1|uint16(i)<<4|uint16(i%3+1)<<13))
 	}
 	f.Fuzz(func(t *testing.T, tree []byte, flags uint16) {
 		c := recFuzz.Begin()
